@@ -31,6 +31,35 @@ var checkSpecs = map[string]*checkSpec{
 		},
 		outside: "changing window sizes mid-traffic; the timeout-admission clause across several calls and UDPSession.Write admission are separate harnesses (see DESIGN.md)",
 	},
+	"C05": {
+		assumptions: append([]string{
+			"session/listener/FEC-decoder receive paths are separate harnesses (see evidence harness list)",
+		}, kcpStateAssumptions...),
+		stubs: commonStubs,
+		bounds: map[string]string{
+			"quick":    "KCP.Input of arbitrary bytes of every length 0..2048 holding at most one complete segment whose len field is a free 32-bit value, both packet types, from 5 receive-side queue shapes; every index/slice/nil/division check on every path is a solver query; per-call growth of pool acquisitions, ack list and held segments asserted <= 1",
+			"thorough": "adds datagrams of 0..160 bytes with up to three complete segments (payloads 0..4+) from the full shape product",
+		},
+		outside: "32-bit int; recvmmsg batch path; datagrams with more than 3 segments (each loop iteration starts from a state covered by the one-segment step)",
+	},
+	"C10": {
+		assumptions: kcpStateAssumptions,
+		stubs:       commonStubs,
+		bounds: map[string]string{
+			"quick":    "core: SetMtu(m1) for every int m1 in [-2^40,2^40] after traffic at MTU 1400/100/27 (0..2 writes of MSS or 1 byte, optionally flushed), then flush at an arbitrary later clock and peer window; Send of 1 or 1900 bytes after SetMtu(m1>=700); flush with fully symbolic MTU 25..1524 from 3 shapes; every output(buf,size) call asserted 0 < size <= mtu",
+			"thorough": "same",
+		},
+		outside: "fragment counts above 3 after an MTU change (Send with tiny MSS)",
+	},
+	"C18": {
+		assumptions: kcpStateAssumptions,
+		stubs:       commonStubs,
+		bounds: map[string]string{
+			"quick":    "(a) RTO bounds: update_ack for every rtt, srtt, rttvar >= 0 (single merged path, all 2^93 value combinations); Input of an arbitrary one-segment datagram at an arbitrary clock from 3 sender shapes; NewKCP and NoDelay with arbitrary arguments",
+			"thorough": "same",
+		},
+		outside: "clause (b)/(c) no-retransmission-on-a-clean-path lemmas and scenario: see harness list in the evidence; not covered until they appear there",
+	},
 	"C20": {
 		assumptions: []string{
 			"Discard is called with n >= 0 (a negative count is outside its documented domain and no caller passes one)",
